@@ -33,6 +33,10 @@ func c13MPCase(out *zzverif.Out, root, s string) {
 	if why := zzverif.C13Confined(root, "manifests", p, 4); why != "" {
 		out.L2("manifest-path-escapes", op, why+" path="+zzverif.Hex([]byte(p)))
 	}
+	// every accepted part is ASCII (valid parts are), so the path is re-readable by every reader of the store
+	if strings.IndexFunc(p, func(c rune) bool { return c >= 0x80 }) >= 0 && strings.IndexFunc(root, func(c rune) bool { return c >= 0x80 }) < 0 {
+		out.L2("accepted-name-invalid-part", op, "non-ASCII byte in the manifest path "+zzverif.Hex([]byte(p)))
+	}
 	// the legacy parser and types/model agree on what it printed: same parts, same path
 	n := model.ParseName(mp.GetFullTagname())
 	if !n.IsValid() || n.Host != mp.Registry || n.Namespace != mp.Namespace || n.Model != mp.Repository || n.Tag != mp.Tag {
@@ -89,6 +93,58 @@ func c13JoinCase(out *zzverif.Out, parts []string) {
 	out.Count("cases")
 }
 
+// c13FoldFamily: the DIRECTED family "every string that strings.EqualFold maps onto a default part or onto a stored
+// spelling": for each base part, every single-character substitution by a simple-fold partner (LONG S for s/S, KELVIN
+// SIGN for k/K, the other letter case), placed in host, namespace, model and tag position of an otherwise default name,
+// in fully written and in abbreviated (defaults merged in) form.  f gets the name string and its four intended parts.
+func c13FoldFamily(f func(name string, parts [4]string, pos int)) {
+	bases := []string{"registry.ollama.ai", "library", "latest", "mistral", "Phi-3.5k", "ks", "_sk", "K"}
+	def := [4]string{"registry.ollama.ai", "library", "m", "latest"}
+	seen := map[string]bool{}
+	for _, b := range bases {
+		var variants []string
+		for i := 0; i < len(b); i++ {
+			c := b[i]
+			var subs []string
+			switch {
+			case c == 's' || c == 'S':
+				subs = append(subs, "\u017f")
+			case c == 'k' || c == 'K':
+				subs = append(subs, "\u212a")
+			}
+			if c >= 'a' && c <= 'z' || c >= 'A' && c <= 'Z' {
+				subs = append(subs, string([]byte{c ^ 0x20}))
+			}
+			for _, sub := range subs {
+				variants = append(variants, b[:i]+sub+b[i+1:])
+			}
+		}
+		variants = append(variants, b, strings.ToUpper(b))
+		for _, v := range variants {
+			for pos := 0; pos < 4; pos++ {
+				p := def
+				p[pos] = v
+				full := p[0] + "/" + p[1] + "/" + p[2] + ":" + p[3]
+				names := []string{full}
+				switch pos { // abbreviated forms in which the other parts come from the defaults
+				case 1:
+					names = append(names, p[1]+"/"+p[2])
+				case 2:
+					names = append(names, p[2], p[2]+":"+p[3])
+				case 3:
+					names = append(names, p[2]+":"+p[3])
+				}
+				for _, nm := range names {
+					if !seen[nm] {
+						seen[nm] = true
+						f(nm, p, pos)
+					}
+				}
+			}
+		}
+	}
+}
+
 func TestVerifC13(t *testing.T) {
 	out := zzverif.NewOut()
 	defer out.Close()
@@ -114,6 +170,10 @@ func TestVerifC13(t *testing.T) {
 		c13BlobCase(out, models, s)
 		c13BlobCase(out, models, "sha256"+s)
 		out.Count("exhaustive")
+	})
+	c13FoldFamily(func(nm string, parts [4]string, pos int) {
+		c13MPCase(out, models, nm)
+		out.Count("fold_family")
 	})
 	// filepath.Clean / Join against the model, exhaustively over path-shaped strings
 	pathAlpha := []byte{'/', '.', 'a', 'B', 0}
